@@ -2,7 +2,7 @@
 EXTENDS Aead, Json
 \* the (construction, encrypt variant, fault kind, open variant) matrix with the verdict the specification
 \* derives, exported for replay: one line per completed behaviour
-Case == [cons |-> cons, enc |-> encv, open |-> openv, mlen |-> mlen, fault |-> fault, fpos |-> fpos,
+Case == [cons |-> cons, enc |-> encv, open |-> openv, mlen |-> mlen, room |-> room, fault |-> fault, fpos |-> fpos,
          res |-> result.res, wirelen |-> Len(Combined(wire))]
 Emit == (phase = "done") => PrintT(ToJson(Case))
 =============================================================================
